@@ -290,6 +290,13 @@ pub struct Plan {
     /// goes to "all scenarios in progress" - such plans run one scenario at a time.
     #[serde(default, skip_serializing_if = "std::ops::Not::not")]
     pub tracing_targets_only: bool,
+    /// Tracing runs: some callbacks hand a clone of their span to a helper that outlives the callback
+    /// (a spawned task / thread instrumented with the step's span, as the book recommends): it logs
+    /// once more after the callback has returned - on the simulator's thread or on a real helper
+    /// thread run in strict hand-off - and only then lets the span close. The runner is to wait for
+    /// that close before it reports the step's / hook's result.
+    #[serde(default, skip_serializing_if = "std::ops::Not::not")]
+    pub late_logs: bool,
 }
 
 pub const SITE_WORLD: &str = "world";
